@@ -11,7 +11,7 @@ package types
 //@ func TxWasDroppedPreAnteHandleDueToBlockGasExcess(res *abci.ExecTxResult) bool
 //@   requires res != nil
 //@   modifies nothing
-//@   ensures[C14.dropped_rule] result == (res.Code != 0 && !(exists j int :: 0 <= j && j < len(res.Events) && res.Events[j].Type == EventTypeEthereumTx))
+//@   ensures[C14.dropped_rule] result == (res.Code != 0 && !(exists j int :: {res.Events[j].Type} 0 <= j && j < len(res.Events) && res.Events[j].Type == EventTypeEthereumTx))
 //@   panics[C14.dropped_never_panics] never
 //@ loop 1
-//@   invariant -1 <= rangeindex && rangeindex < len(res.Events) && (forall j int :: (0 <= j && j <= rangeindex) ==> res.Events[j].Type != EventTypeEthereumTx)
+//@   invariant -1 <= rangeindex && rangeindex < len(res.Events) && (forall j int :: {res.Events[j].Type} (0 <= j && j <= rangeindex) ==> res.Events[j].Type != EventTypeEthereumTx)
